@@ -149,6 +149,27 @@ mod h {
         kani::cover!(!fired);
     }
 
+    /// C18: a zero limit is accepted by the configuration; the estimate must still be a number in [0,1] (0/0 and x/0 are
+    /// absorbed by `min(1.)`, which ignores NaN)
+    #[kani::proof]
+    fn max_generation_estimate_with_zero_limit() {
+        let g16: u16 = kani::any();
+        let t = MaxGeneration::<Ctx, Obj, Sol>::new(0);
+        let c = ctx(g16 as usize);
+        let e = t.estimate(&c);
+        assert!(e >= 0. && e <= 1., "post_max_generation_estimate_in_unit_interval");
+        kani::cover!(g16 == 0); kani::cover!(g16 > 0);
+    }
+    #[kani::proof]
+    fn max_time_estimate_with_zero_limit() {
+        let e8: u16 = kani::any();
+        let mut t = MaxTime::<Ctx, Obj, Sol>::new(0.);
+        t.start = Timer { elapsed: e8 as Float / 8. };
+        let e = t.estimate(&ctx(0));
+        assert!(e >= 0. && e <= 1., "post_max_time_estimate_in_unit_interval");
+        kani::cover!(e8 == 0); kani::cover!(e8 > 0);
+    }
+
     /// MaxTime: fires iff elapsed > limit, for every finite elapsed >= 0 and limit >= 0 (complete: loop-free)
     #[kani::proof]
     fn max_time_fires_iff_limit_exceeded() {
